@@ -64,6 +64,34 @@ func ruleC04Seq(r *Run) {
 	r.Exists(rule, "(*Router).handleHTTPRequest:SetHandlers sinks", disp.Pos(), len(sinks) >= 1, fmt.Sprintf("%d SetHandlers call(s) in the dispatcher", len(sinks)))
 	g404 := w.Global("rux", "internal404Handler")
 	g405 := w.Global("rux", "internal405Handler")
+	// every request runs a chain: no path through the dispatcher answers on its own and returns before the chain
+	// (with the global middleware in front) was installed and started — found route, 404 and 405 alike
+	{
+		nextFn := w.Fn("rux", "Context.Next")
+		isNext := func(x ssa.Instruction) bool {
+			c, ok := x.(*ssa.Call)
+			return ok && staticCallee(c) == nextFn
+		}
+		isSet := func(x ssa.Instruction) bool {
+			c, ok := x.(*ssa.Call)
+			return ok && staticCallee(c) == setH
+		}
+		okSet, badRet := allPathsHit(disp, nil, isSet)
+		okNext := false
+		if okSet {
+			okNext = true
+			for _, sk := range sinks {
+				if okN, br := allPathsHit(disp, sk, isNext); !okN {
+					okNext, badRet = false, br
+				}
+			}
+		}
+		pos := disp.Pos()
+		if badRet != nil {
+			pos = w.InstrPos(badRet)
+		}
+		r.Check(rule, "(*Router).handleHTTPRequest:every path runs the chain", pos, okSet && okNext, map[bool]string{true: "every normal path through the dispatcher installs a chain and starts it with Next()", false: "a path through the dispatcher returns without installing and starting a handler chain: the request is answered by the dispatcher itself and the global middleware (logging, auth, recovery of the application) does not run for it"}[okSet && okNext])
+	}
 	for si, sk := range sinks {
 		alts, why := e.at(disp, sk, sk.Common().Args[1])
 		if why != "" {
@@ -1157,7 +1185,7 @@ func init() {
 	register(&property{
 		Meta: propertyMeta{
 			ID:          "C04",
-			Explanation: "(C04-SEQ) path-sensitive sequence-shape evaluation (E-SEQ) of every chain-typed value at its sink: on every path of the dispatcher the argument of SetHandlers is global ++ route middleware ++ [main handler], global ++ not-allowed chain or global ++ not-found chain (defaults only when the configured chain is empty), with the global list read at request time; every store into Route.handlers, Router.currentGroupHandlers, Router.handlers, noRoute, noAllowed is 'existing list, then the new middleware' / 'group list, then the route's own' (combineHandlers is evaluated from its body: make + two copies). (C04-CURSOR) the cursor is written only with -1 where a request starts, the sentinel, or index+1; exactly one place invokes handlers[index], in a loop guarded by index < len(handlers), every path to the call and between two calls passes index+1, and after a handler returns the loop can only end through the guard: each handler at most once, in order, automatically continued. (C04-VERBS) every verb helper attaches its variadic middleware to the route it registers.",
+			Explanation: "(C04-SEQ) path-sensitive sequence-shape evaluation (E-SEQ) of every chain-typed value at its sink: on every path of the dispatcher the argument of SetHandlers is global ++ route middleware ++ [main handler], global ++ not-allowed chain or global ++ not-found chain (defaults only when the configured chain is empty), with the global list read at request time; every store into Route.handlers, Router.currentGroupHandlers, Router.handlers, noRoute, noAllowed is 'existing list, then the new middleware' / 'group list, then the route's own' (combineHandlers is evaluated from its body: make + two copies). (C04-CURSOR) the cursor is written only with -1 where a request starts, the sentinel, or index+1; exactly one place invokes handlers[index], in a loop guarded by index < len(handlers), every path to the call and between two calls passes index+1, and after a handler returns the loop can only end through the guard: each handler at most once, in order, automatically continued. (C04-VERBS) every verb helper attaches its variadic middleware to the route it registers. Every normal path of the dispatcher passes SetHandlers and then Next().",
 			NotDecided:  []string{"that code after Next() runs in reverse order (consequence of Go's call stack plus C04-CURSOR; argued)", "response bodies", "behaviour of user handlers that replace the chain through the exported SetHandlers mid-request"},
 			Assumptions: []string{"handlers do not call SetHandlers/Reset on their own context mid-chain", "go/ssa lowering of append / composite literals / copy"},
 		},
